@@ -432,8 +432,13 @@ class Check:
         self.extra = {}
         self.findings = load_known()
 
-    def add_model(self, info, summary, relevant, nontrivial_keys=(), exhaustive=True, note=None):
-        """Accounts one TLC-model run; `relevant` = the harness check tags that decide this property."""
+    def add_model(self, info, summary, relevant, nontrivial_keys=(), exhaustive=True, note=None, must_occur=()):
+        """Accounts one TLC-model run; `relevant` = the harness check tags that decide this property.
+        `must_occur`: counters / distinct categories that have to be positive - a run in which a kind of case never
+        occurred is vacuous and is a tool error, not a pass."""
+        for k in list(must_occur) + list(nontrivial_keys):
+            if summary["counters"].get(k, 0) + summary["distinct"].get(k, 0) == 0:
+                raise ToolError(f"vacuous run: no case of kind '{k}' was produced ({info['cmd'][-120:]})")
         self.states += info["distinct"]
         self.transitions += info["generated"]
         self.replayed += summary["cases"]
